@@ -107,6 +107,7 @@ type Exec struct {
 	lemmasUsed map[string]bool
 	nReturns   int
 	callbackModelled bool
+	dynSort          map[string]Sort
 	recActive map[*Pred]bool
 	recInst   map[string]*recInstance
 	readLog   map[string]Term
